@@ -167,6 +167,22 @@ def adaptive(
     )
 
 
+def _scaled(base_s: float, factor: float, attempt: int) -> float:
+    """
+    base_s * factor**attempt without raising when factor**attempt alone
+    exceeds the float range (attempt >= 1024 for 2.0, >= 1751 for 1.5).
+    """
+    try:
+        return base_s * (factor**attempt)
+    except OverflowError:
+        scaled = base_s
+        while attempt > 0 and 0.0 < scaled < math.inf:
+            step = min(attempt, 512)
+            scaled *= factor**step
+            attempt -= step
+        return scaled
+
+
 def decorrelated_jitter(base_s: float = 0.25, max_s: float = 30.0) -> StrategyFn:
     """
     Decorrelated jitter backoff.
@@ -192,7 +208,7 @@ def equal_jitter(base_s: float = 0.25, max_s: float = 30.0) -> StrategyFn:
     """
 
     def f(attempt: int, klass: ErrorClass, prev_sleep: float | None) -> float:
-        cap = min(max_s, base_s * (2.0**attempt))
+        cap = min(max_s, _scaled(base_s, 2.0, attempt))
         return cap / 2.0 + random.uniform(0.0, cap / 2.0)
 
     return f
@@ -207,7 +223,7 @@ def token_backoff(base_s: float = 0.25, max_s: float = 20.0) -> StrategyFn:
     """
 
     def f(attempt: int, klass: ErrorClass, prev_sleep: float | None) -> float:
-        cap = min(max_s, base_s * (1.5**attempt))
+        cap = min(max_s, _scaled(base_s, 1.5, attempt))
         return random.uniform(cap / 2.0, cap)
 
     return f
